@@ -43,6 +43,13 @@ func main() {
 		probeDefAt(dir, l, c)
 		return
 	}
+	if len(os.Args) > 5 && os.Args[2] == "refs" {
+		var l, c int
+		fmt.Sscanf(os.Args[4], "%d", &l)
+		fmt.Sscanf(os.Args[5], "%d", &c)
+		probeRefs(dir, os.Args[3], l, c)
+		return
+	}
 	if len(os.Args) > 2 && os.Args[2] == "defsall" {
 		probeDefsAll(dir)
 		return
